@@ -22,6 +22,10 @@ func main() {
 		dumpBeliefs(p)
 		return
 	}
+	if what == "slices" {
+		dumpSlices(p)
+		return
+	}
 	if what == "dbg" {
 		dbg(p)
 		return
